@@ -180,7 +180,8 @@ def _run_history(ctx, case):
             if pos >= n:
                 continue
             k = max(1, min(k, n - pos))
-            must(case, 'step %d: update with traces %d..%d' % (step, pos, pos + k), sut.update, traces[pos:pos + k], data[pos:pos + k])
+            lt, ld = case.get('layout') or ('C', 'C')
+            must(case, 'step %d: update with traces %d..%d' % (step, pos, pos + k), sut.update, gen.relayout(traces[pos:pos + k], lt), gen.relayout(data[pos:pos + k], ld))
             if seen_compute_since_update and updates > 0:
                 compute_between = True
             seen_compute_since_update = False
@@ -229,12 +230,16 @@ def replay(ctx, case):
 
 # ------------------------------------------------------------------------------------------------
 @st.composite
-def histories(draw, kind, precision, tdtypes):
+def histories(draw, kind, precision, tdtypes, large=False):
     seed64 = draw(st.integers(0, 2 ** 63))
     g = np.random.Generator(np.random.PCG64(seed64))
-    regime = draw(st.sampled_from(['exact', 'exact', 'rounded']))
+    regime = draw(st.sampled_from(['exact', 'exact', 'rounded'])) if not large else 'exact'
     n = draw(st.one_of(st.integers(2, 10), st.integers(2, 60)))
     s = draw(st.integers(1, 6))
+    if large:
+        # tens of thousands of traces fed in a few very large batches (sizes around powers of two and off them)
+        n = draw(st.sampled_from([4097, 16385, 20000, 32769, 65537])) + draw(st.integers(-2, 2))
+        s = draw(st.integers(1, 2))
     tdt = draw(st.sampled_from(tdtypes if regime == 'exact' else [t for t in tdtypes if np.dtype(t).kind == 'f'] or ['float64']))
     case = {'kind': 'history', 'dist': kind, 'precision': precision, 'regime': regime}
     single_word = kind in ('tbuild', 'tmatch_static')
@@ -301,8 +306,10 @@ def histories(draw, kind, precision, tdtypes):
     ops = []
     left = n
     while left > 0:
-        style = draw(st.sampled_from(['one', 'one', 'small', 'rest', 'any']))
-        k = 1 if style == 'one' else left if style == 'rest' else draw(st.integers(1, min(left, 4))) if style == 'small' else draw(st.integers(1, left))
+        style = draw(st.sampled_from(['one', 'one', 'small', 'rest', 'any'])) if not large else draw(st.sampled_from(['rest', 'any', 'any', 'one', 'pow2']))
+        if style == 'pow2':
+            style = 'any' if left <= 16384 else 'pow2'
+        k = 1 if style == 'one' else left if style == 'rest' else 16384 if style == 'pow2' else draw(st.integers(1, min(left, 4))) if style == 'small' else draw(st.integers(1, left))
         ops.append(['update', k])
         left -= k
         c = draw(st.sampled_from(['none', 'none', 'compute', 'compute2', 'compute+compute']))
@@ -310,21 +317,23 @@ def histories(draw, kind, precision, tdtypes):
             ops.extend([['compute', 0], ['compute', 0]])
         elif c != 'none':
             ops.append([c, 0])
-        if len(ops) > 40:
+        if len(ops) > (40 if not large else 6) and left > 0:
             ops.append(['update', left])
             left = 0
     if ops[-1][0] == 'update':
         ops.append([draw(st.sampled_from(['compute', 'compute2'])), 0])
     case['ops'] = ops
     case['kernels'] = [draw(st.integers(0, 1)) for _ in range(8)] * 8
+    case['layout'] = [draw(st.sampled_from(gen.LAYOUTS)), draw(st.sampled_from(gen.LAYOUTS))]
     return case
 
 
-def unit_generated(ctx, kinds, precision, tdtypes, n):
+def unit_generated(ctx, kinds, precision, tdtypes, n, large=False):
     for i, kind in enumerate(kinds):
         cheap = kind in CHEAP
-        hyp.run(ctx, histories(kind, precision, tdtypes), run_history, n if cheap else max(1, n // 2),
-                shrink_budget=(300 if cheap else 60) if ctx.tier == 'quick' else (3000 if cheap else 400), seed_extra=i)
+        budget = (300 if cheap else 60) if ctx.tier == 'quick' else (3000 if cheap else 400)
+        hyp.run(ctx, histories(kind, precision, tdtypes, large), run_history, n if (cheap or large) else max(1, n // 2),
+                shrink_budget=budget if not large else 6, seed_extra=i)
 
 
 def units(tier):
@@ -337,6 +346,10 @@ def units(tier):
                    'kwargs': {'kinds': ['cpa', 'cpa_alt', 'dpa', 'ttest'], 'precision': precision, 'tdtypes': tdts, 'n': 150 if q else 2000}})
         us.append({'name': 'classes-%s-%s' % (precision, '+'.join(tdts)), 'fn': 'unit_generated',
                    'kwargs': {'kinds': ['anova', 'nicv', 'snr', 'mia', 'tbuild', 'tmatch_static', 'tmatch_dpa'], 'precision': precision, 'tdtypes': tdts, 'n': 120 if q else 1600}})
+    for precision, tdts in (('float32', ['uint8', 'float32']), ('float64', ['int16', 'float64'])):
+        us.append({'name': 'large-cheap-%s' % precision, 'fn': 'unit_generated', 'kwargs': {'kinds': ['cpa', 'cpa_alt', 'dpa', 'ttest'], 'precision': precision, 'tdtypes': tdts, 'n': 5 if q else 60, 'large': True}})
+        us.append({'name': 'large-classes-%s' % precision, 'fn': 'unit_generated',
+                   'kwargs': {'kinds': ['anova', 'nicv', 'snr', 'mia', 'tbuild', 'tmatch_static', 'tmatch_dpa'], 'precision': precision, 'tdtypes': tdts, 'n': 3 if q else 40, 'large': True}})
     return us
 
 
